@@ -197,17 +197,19 @@ func runParser(which string, q string, m seq.Mapping) (o outcome, root *parser.A
 // ---------------------------------------------------------------- watchdog for hangs
 
 var curCase atomic.Value // string
-var caseStart atomic.Int64
+var caseSeq atomic.Int64    // incremented at the start of every in-process parse
+var caseActive atomic.Bool
 
 func beginCase(s string) {
-	if len(s) > 300 {
-		s = s[:300] + "..."
+	if len(s) > 20000 {
+		s = s[:20000]
 	}
 	curCase.Store(s)
-	caseStart.Store(time.Now().UnixNano())
+	caseSeq.Add(1)
+	caseActive.Store(true)
 }
 
-func endCase() { caseStart.Store(0) }
+func endCase() { caseActive.Store(false) }
 
 // ---------------------------------------------------------------- main
 
@@ -219,9 +221,14 @@ type ctx struct {
 	chSq    *vh.Channel
 	chLg    *vh.Channel
 	chLex   *vh.Channel
+	chLgStr *vh.Channel
+	chLexer *vh.Channel
+	nLexer  int
+	nLg     int
 	orTruth *vh.Oracle
 	orTotal *vh.Oracle
 	seenV   map[string]bool
+	nLex    int
 }
 
 func (c *ctx) violate(site, class, what string, replay ...string) {
@@ -263,17 +270,27 @@ func main() {
 	c.chSq = vh.NewChannel("seqql.skel", "ParseSeqQL and parseSeqQLFilter on rendered abstract token lists (every list up to a length bound over two alphabets, plus random longer ones) vs sqParse/sqFilter on tokSeqQL; result kind ok/err/panic and the tree; non-trivial = parses to a tree with an operator")
 	c.chLg = vh.NewChannel("legacy.skel", "ParseQuery and buildAst likewise vs lgParse/lgParseRaw on tokLegacy; non-trivial = parses to a tree with an operator")
 	c.chLex = vh.NewChannel("seqql.lex", "ParseSeqQL on strings (well-formed generated queries and hostile/mutated ones, 4 mappings, case sensitive on/off) vs SV.Parser.parseSeqQL run on the real lexer's token stream annotated with Go's unicode tables: result kind, the whole tree with every literal/range and its terms, and the pipes; non-trivial = accepted query of more than 3 tokens")
+	c.chLexer = vh.NewChannel("seqql.lexer", "the SeqQL lexer (all Next() calls up to IsEnd, through VerifLex) vs SV.Parser.lexAll on the runes of the query annotated with Go's unicode tables and strconv.UnquoteChar's answers: every string over an 18-symbol hostile alphabet up to a length bound, plus random quoted strings with all escape kinds, comments, invalid UTF-8; token bytes and the quoted / space-skipped / raw flags; non-trivial = a quoted token or more than 4 tokens")
+	c.chLgStr = vh.NewChannel("legacy.str", "ParseQuery and ParseAggregationFilter on strings (well-formed generated, hostile, mutated; 4 mappings; case sensitive on/off) vs SV.Parser.parseQueryRunes / parseAggFilter on []rune(query) annotated with Go's unicode tables: result kind and the whole tree with all literals, ranges and terms; non-trivial = accepted query of more than 8 bytes")
 	c.orTruth = vh.NewOracle("truth", "truth table (real eval tree over 2^k documents) of the AST returned by ParseSeqQL/ParseQuery == truth table of the written expression; all trees up to a node bound with minimal and full parentheses, plus random expressions with random redundant parentheses, keyword case, in-lists and multi-word text; non-trivial = expression with at least two operators")
 	c.orTotal = vh.NewOracle("total", "ParseSeqQL/ParseQuery/ParseAggregationFilter under recover with a watchdog: returns a query or an error for grammar-derived and mutated strings x mappings (all types, test mapping, keyword/text/path only, nil); non-trivial = input is not accepted by the parser (error path) or mentions a non-searchable field type")
 
-	// watchdog: a single parse that runs for more than 20 s is reported as a hang
+	// watchdog: the same parse being active over 45 consecutive one-second ticks of this goroutine is reported as a
+	// hang (ticks, not wall-clock: when the whole process is starved or suspended the ticks stall as well)
 	go func() {
+		last, same := int64(-1), 0
 		for {
 			time.Sleep(time.Second)
-			st := caseStart.Load()
-			if st != 0 && time.Since(time.Unix(0, st)) > 20*time.Second {
+			seq := caseSeq.Load()
+			if caseActive.Load() && seq == last {
+				same++
+			} else {
+				same = 0
+			}
+			last = seq
+			if same >= 45 {
 				cs, _ := curCase.Load().(string)
-				c.violate("parser:hang", "no-termination", "parse did not return within 20 s", cs)
+				c.violate("parser:hang", "no-termination", "parse did not return within 45 s", cs)
 				rep.AddOracle(c.orTotal)
 				rep.Write(o.Out)
 				os.Exit(0)
@@ -297,15 +314,19 @@ func main() {
 		c.runSkel(rng.Fork())
 		c.runTruth(rng.Fork())
 		c.runTotal(rng.Fork())
+		c.runLexer(rng.Fork())
 		c.runLex(rng.Fork())
+		c.runLegacyStr(rng.Fork())
 		c.runDeep()
 	}
-	caseStart.Store(0)
+	endCase()
 	rep.AddChannel(c.chPnot, o.Driver)
 	rep.AddChannel(c.chEval, o.Driver)
 	rep.AddChannel(c.chSq, o.Driver)
 	rep.AddChannel(c.chLg, o.Driver)
+	rep.AddChannel(c.chLexer, o.Driver)
 	rep.AddChannel(c.chLex, o.Driver)
+	rep.AddChannel(c.chLgStr, o.Driver)
 	rep.AddOracle(c.orTruth)
 	rep.AddOracle(c.orTotal)
 	rep.Write(o.Out)
@@ -344,7 +365,17 @@ func (c *ctx) replayLine(l string) {
 		if len(f) == 4 {
 			c.caseLex(f[1], f[2] == "1", unhex(f[3]), "replay")
 		}
-	case "sqlex":
+	case "lexerq":
+		if len(f) == 2 {
+			c.caseLexer(unhex(f[1]), "replay")
+		}
+	case "lexer":
+	case "lgstrq":
+		// lgstrq <mapping id> <cs> <hex query>
+		if len(f) == 4 {
+			c.caseLegacyStr(f[1], f[2] == "1", unhex(f[3]), "replay")
+		}
+	case "sqlex", "lgstr", "aggstr":
 		// a driver request cannot be turned back into a string; nothing to re-run
 	case "deepin":
 		if len(f) == 4 {
